@@ -53,6 +53,8 @@ static inline void *v_alloc(size_t n) {
 }
 #endif
 
+#include "libc_models.h"
+
 /* Copy n symbolic bytes from IN into an exactly sized heap object. */
 static inline uint8_t *v_buf(const void *src, size_t n) {
 	uint8_t *p = (uint8_t *)v_alloc(n);
